@@ -88,6 +88,38 @@ var redirect = map[string]map[string]string{
 	},
 }
 
+// pureByPolicy decides names that the tables do not list: constants, error values, types and pure
+// helpers of these packages neither block, nor read a clock, nor touch the network, so they stay
+// real; anything that could (dialling, listening, resolving names, raw socket calls, timers,
+// synchronisation objects without a model) still aborts the rewrite.
+func pureByPolicy(path, name string) bool {
+	hasPrefix := func(ps ...string) bool {
+		for _, p := range ps {
+			if strings.HasPrefix(name, p) {
+				return true
+			}
+		}
+		return false
+	}
+	switch path {
+	case "syscall":
+		// constants (SO_REUSEADDR, EADDRINUSE, AF_INET ...) and the Errno / Signal types
+		if name == strings.ToUpper(name) || name == "Errno" || name == "Signal" || name == "RawConn" || name == "Conn" {
+			return true
+		}
+		return false
+	case "net":
+		return !hasPrefix("Listen", "Dial", "Lookup", "File", "Interface", "Pipe", "Resolver", "DefaultResolver", "TCPListener", "UnixConn", "UnixListener", "IPConn", "Buffers")
+	case "time":
+		return !hasPrefix("Tick", "NewTicker", "Ticker")
+	case "os":
+		return !hasPrefix("Exit", "StartProcess", "FindProcess", "Pipe", "Getpid", "Getppid")
+	case "runtime":
+		return !hasPrefix("Goexit", "LockOSThread", "UnlockOSThread", "GC", "SetFinalizer", "AddCleanup", "GOMAXPROCS", "ReadMemStats")
+	}
+	return false
+}
+
 var fset = token.NewFileSet()
 
 func fatal(format string, a ...any) {
@@ -448,6 +480,9 @@ func (c *fileCtx) rewrite() {
 			}
 			tab := redirect[path]
 			to, known := tab[x.Sel.Name]
+			if !known && pureByPolicy(path, x.Sel.Name) {
+				to, known = "", true
+			}
 			if !known {
 				fatal("unsupported API: %s.%s at %s (not in the redirection tables)", path, x.Sel.Name, pos(x))
 			}
